@@ -18,6 +18,7 @@ import (
 	"fmt"
 	"os"
 	"path/filepath"
+	"sync"
 	"sync/atomic"
 	"time"
 
@@ -358,4 +359,217 @@ func tbRun(path string, c tbCase) (out tbOut) {
 	case <-time.After(5 * time.Second):
 	}
 	return
+}
+
+// ---------------------------------------------------------------------------
+// two-stores-dequeue-race (C05): two processes poll the same route with batch 2 while four messages are ready.  Process A has polled a
+// moment ago (its lease sweep is not due); during its next dequeue, at its HookAt-th clock reading, process B's dequeue is served and
+// takes two messages.  A must still return two: min(batch, ready) as of the moment it takes the messages, not as of a look it had
+// before B committed.
+
+func init() { register("two-stores-dequeue-race", twoStoresDequeueRace) }
+
+type tdOut struct {
+	HookAt     int64    `json:"hook_at"`
+	ClockReads int64    `json:"clock_reads"`
+	BItems     []string `json:"b_items"`
+	AItems     []string `json:"a_items"`
+	AErr       string   `json:"a_err"`
+	AStarted   bool     `json:"b_served_inside_a"`
+	LeftQueued int      `json:"left_queued"`
+	Err        string   `json:"err,omitempty"`
+}
+
+func twoStoresDequeueRace(in []byte) (any, error) {
+	var req struct {
+		Dir   string  `json:"dir"`
+		Hooks []int64 `json:"hooks"`
+	}
+	if err := json.Unmarshal(in, &req); err != nil {
+		return nil, err
+	}
+	if err := os.MkdirAll(req.Dir, 0o755); err != nil {
+		return nil, err
+	}
+	var outs []tdOut
+	for i, h := range req.Hooks {
+		outs = append(outs, tdRun(filepath.Join(req.Dir, fmt.Sprintf("td-%d-%d.db", os.Getpid(), i)), h))
+	}
+	return map[string]any{"cases": outs}, nil
+}
+
+func tdRun(path string, hookAt int64) (out tdOut) {
+	out.HookAt = hookAt
+	base := time.Date(2026, 2, 4, 12, 0, 0, 0, time.UTC)
+	var off atomic.Int64
+	nowAt := func() time.Time { return base.Add(time.Duration(off.Load())) }
+	B, err := queue.NewSQLiteStore(path, queue.WithSQLiteNowFunc(nowAt), queue.WithSQLitePollInterval(5*time.Millisecond))
+	if err != nil {
+		out.Err = "open second store: " + err.Error()
+		return
+	}
+	defer B.Close()
+	_ = B.VerifSetBusyTimeout(120)
+	var armed, attempted atomic.Bool
+	var reads atomic.Int64
+	var bResp queue.DequeueResponse
+	var bDone bool
+	runB := func() error {
+		r, err := B.Dequeue(queue.DequeueRequest{Route: "/r", Target: "t", Batch: 2, LeaseTTL: time.Minute})
+		if err == nil {
+			bResp, bDone = r, true
+		}
+		return err
+	}
+	aNow := func() time.Time {
+		if armed.Load() {
+			if reads.Add(1) == hookAt && attempted.CompareAndSwap(false, true) {
+				_ = runB() // refused as busy when this reading lies inside A's write transaction: B then polls after A
+			}
+		}
+		return nowAt()
+	}
+	A, err := queue.NewSQLiteStore(path, queue.WithSQLiteNowFunc(aNow), queue.WithSQLitePollInterval(5*time.Millisecond))
+	if err != nil {
+		out.Err = "open first store: " + err.Error()
+		return
+	}
+	defer A.Close()
+	// A polls an empty queue (its lease sweep has just run), then four messages arrive
+	if _, err := A.Dequeue(queue.DequeueRequest{Route: "/r", Target: "t", Batch: 2, LeaseTTL: time.Minute}); err != nil {
+		out.Err = "first poll: " + err.Error()
+		return
+	}
+	for i := 1; i <= 4; i++ {
+		if err := B.Enqueue(queue.Envelope{ID: fmt.Sprintf("m%d", i), Route: "/r", Target: "t", Payload: []byte("x"),
+			ReceivedAt: nowAt().Add(time.Duration(i) * time.Microsecond)}); err != nil {
+			out.Err = "enqueue: " + err.Error()
+			return
+		}
+	}
+	off.Add(int64(time.Millisecond))
+	armed.Store(true)
+	ra, err := A.Dequeue(queue.DequeueRequest{Route: "/r", Target: "t", Batch: 2, LeaseTTL: time.Minute})
+	armed.Store(false)
+	out.ClockReads = reads.Load()
+	if err != nil {
+		out.AErr = err.Error()
+	}
+	for _, it := range ra.Items {
+		out.AItems = append(out.AItems, it.ID)
+	}
+	out.AStarted = bDone // B's dequeue was served inside A's call
+	if !bDone {
+		if err := runB(); err != nil {
+			out.Err = "second store's dequeue after the call: " + err.Error()
+			return
+		}
+	}
+	for _, it := range bResp.Items {
+		out.BItems = append(out.BItems, it.ID)
+	}
+	if st, err := B.Stats(); err == nil {
+		out.LeftQueued = st.ByState[queue.StateQueued]
+	}
+	return
+}
+
+// ---------------------------------------------------------------------------
+// two-stores-dequeue-stress (C05): N messages are ready, nothing else happens (frozen clock, long leases), and two processes poll the
+// route concurrently with batch 2 until both find it empty.  Every call is recorded with logical start / end stamps.  The check's
+// rule: a call that returned fewer than `batch` items although a call that STARTED AFTER IT HAD RETURNED was still handed messages was
+// starved - those messages were ready during the whole of the short call.
+
+func init() { register("two-stores-dequeue-stress", twoStoresDequeueStress) }
+
+func twoStoresDequeueStress(in []byte) (any, error) {
+	var req struct {
+		Dir      string `json:"dir"`
+		Trials   int    `json:"trials"`
+		Messages int    `json:"messages"`
+		Batch    int    `json:"batch"`
+	}
+	if err := json.Unmarshal(in, &req); err != nil {
+		return nil, err
+	}
+	if err := os.MkdirAll(req.Dir, 0o755); err != nil {
+		return nil, err
+	}
+	type call struct {
+		Store string `json:"store"`
+		Start int64  `json:"start"`
+		End   int64  `json:"end"`
+		N     int    `json:"n"`
+		Err   string `json:"err,omitempty"`
+	}
+	type trial struct {
+		Calls    []call `json:"calls"`
+		Leased   int    `json:"leased"`
+		Distinct int    `json:"distinct"`
+		Err      string `json:"err,omitempty"`
+	}
+	var outs []trial
+	for t := 0; t < req.Trials; t++ {
+		var tr trial
+		path := filepath.Join(req.Dir, fmt.Sprintf("ts-%d-%d.db", os.Getpid(), t))
+		base := time.Date(2026, 2, 4, 12, 0, 0, 0, time.UTC)
+		nowAt := func() time.Time { return base }
+		A, errA := queue.NewSQLiteStore(path, queue.WithSQLiteNowFunc(nowAt), queue.WithSQLitePollInterval(2*time.Millisecond))
+		B, errB := queue.NewSQLiteStore(path, queue.WithSQLiteNowFunc(nowAt), queue.WithSQLitePollInterval(2*time.Millisecond))
+		if errA != nil || errB != nil {
+			tr.Err = fmt.Sprintf("open: %v %v", errA, errB)
+			outs = append(outs, tr)
+			continue
+		}
+		for i := 0; i < req.Messages; i += 100 {
+			var envs []queue.Envelope
+			for j := i; j < i+100 && j < req.Messages; j++ {
+				envs = append(envs, queue.Envelope{ID: fmt.Sprintf("m%04d", j), Route: "/r", Target: "t", Payload: []byte("x")})
+			}
+			if _, err := A.EnqueueBatch(envs); err != nil {
+				tr.Err = "enqueue: " + err.Error()
+			}
+		}
+		var stamp atomic.Int64
+		var mu sync.Mutex
+		seen := map[string]int{}
+		var wg sync.WaitGroup
+		for name, st := range map[string]*queue.SQLiteStore{"A": A, "B": B} {
+			wg.Add(1)
+			go func(name string, st *queue.SQLiteStore) {
+				defer wg.Done()
+				empties := 0
+				for empties < 3 {
+					c := call{Store: name, Start: stamp.Add(1)}
+					r, err := st.Dequeue(queue.DequeueRequest{Route: "/r", Target: "t", Batch: req.Batch, LeaseTTL: time.Hour})
+					c.End = stamp.Add(1)
+					c.N = len(r.Items)
+					if err != nil {
+						c.Err = err.Error()
+					}
+					mu.Lock()
+					tr.Calls = append(tr.Calls, c)
+					for _, it := range r.Items {
+						seen[it.ID]++
+					}
+					mu.Unlock()
+					if len(r.Items) == 0 {
+						empties++
+					} else {
+						empties = 0
+					}
+					time.Sleep(30 * time.Microsecond) // let the other process in (a busy handler that sleeps would otherwise never win the lock)
+				}
+			}(name, st)
+		}
+		wg.Wait()
+		for _, n := range seen {
+			tr.Leased += n
+		}
+		tr.Distinct = len(seen)
+		_ = A.Close()
+		_ = B.Close()
+		outs = append(outs, tr)
+	}
+	return map[string]any{"trials": outs}, nil
 }
